@@ -1,1 +1,788 @@
-// placeholder
+//! Expression trees `E`, an rscel-independent renderer (precedence table, parenthesisation
+//! and whitespace styles), the span-free `Shape` vocabulary, and free-variable analysis.
+
+use crate::g::G;
+use crate::val::{bytes_lit, str_lit, V};
+use std::collections::BTreeSet;
+
+#[derive(Clone, Copy, Debug, PartialEq, Eq, Hash)]
+pub enum Op {
+    Or,
+    And,
+    Lt,
+    Le,
+    Gt,
+    Ge,
+    Eq,
+    Ne,
+    In,
+    Add,
+    Sub,
+    Mul,
+    Div,
+    Rem,
+}
+
+pub const ALL_OPS: &[Op] = &[
+    Op::Or,
+    Op::And,
+    Op::Lt,
+    Op::Le,
+    Op::Gt,
+    Op::Ge,
+    Op::Eq,
+    Op::Ne,
+    Op::In,
+    Op::Add,
+    Op::Sub,
+    Op::Mul,
+    Op::Div,
+    Op::Rem,
+];
+
+impl Op {
+    pub fn sym(self) -> &'static str {
+        match self {
+            Op::Or => "||",
+            Op::And => "&&",
+            Op::Lt => "<",
+            Op::Le => "<=",
+            Op::Gt => ">",
+            Op::Ge => ">=",
+            Op::Eq => "==",
+            Op::Ne => "!=",
+            Op::In => "in",
+            Op::Add => "+",
+            Op::Sub => "-",
+            Op::Mul => "*",
+            Op::Div => "/",
+            Op::Rem => "%",
+        }
+    }
+    /// CEL precedence levels: ?: 0 < || 1 < && 2 < relations 3 < + - 4 < * / % 5 < unary 6 < postfix 7
+    pub fn prec(self) -> u8 {
+        match self {
+            Op::Or => 1,
+            Op::And => 2,
+            Op::Lt | Op::Le | Op::Gt | Op::Ge | Op::Eq | Op::Ne | Op::In => 3,
+            Op::Add | Op::Sub => 4,
+            Op::Mul | Op::Div | Op::Rem => 5,
+        }
+    }
+    pub fn from_sym(s: &str) -> Option<Op> {
+        ALL_OPS.iter().copied().find(|o| o.sym() == s)
+    }
+}
+
+#[derive(Clone, Debug, PartialEq)]
+pub enum FSeg {
+    Lit(String),
+    Expr(E),
+}
+
+#[derive(Clone, Debug, PartialEq)]
+pub enum Pat {
+    Any,
+    Type(String),
+    /// optional comparison operator (== != < <= > >=) and a `||`-level expression
+    Cmp(Option<Op>, E),
+}
+
+#[derive(Clone, Debug, PartialEq)]
+pub enum E {
+    /// atomic literal: non-negative int, uint, non-negative finite double, bool, string,
+    /// bytes, null (negative and non-finite numbers are built with Neg / Bin nodes)
+    Lit(V),
+    Var(String),
+    Not(u8, Box<E>),
+    Neg(u8, Box<E>),
+    Bin(Op, Box<E>, Box<E>),
+    Tern(Box<E>, Box<E>, Box<E>),
+    List(Vec<E>),
+    Map(Vec<(E, E)>),
+    Index(Box<E>, Box<E>),
+    Field(Box<E>, String),
+    /// callee expression and arguments: `f(a)` has callee Var(f); `x.f(a)` has callee Field(x, f)
+    Call(Box<E>, Vec<E>),
+    FStr(Vec<FSeg>),
+    Match(Box<E>, Vec<(Pat, E)>),
+}
+
+pub fn var(n: &str) -> E {
+    E::Var(n.to_string())
+}
+pub fn bin(op: Op, a: E, b: E) -> E {
+    E::Bin(op, Box::new(a), Box::new(b))
+}
+pub fn call(name: &str, args: Vec<E>) -> E {
+    E::Call(Box::new(var(name)), args)
+}
+pub fn method(recv: E, name: &str, args: Vec<E>) -> E {
+    E::Call(Box::new(E::Field(Box::new(recv), name.to_string())), args)
+}
+pub fn ilit(i: i64) -> E {
+    E::from_value(&V::Int(i))
+}
+pub fn slit(s: &str) -> E {
+    E::Lit(V::s(s))
+}
+
+impl E {
+    /// Build a constant expression that denotes `v` exactly, using only atomic literals.
+    pub fn from_value(v: &V) -> E {
+        match v {
+            V::Int(i) => {
+                if *i == i64::MIN {
+                    bin(
+                        Op::Sub,
+                        E::Neg(1, Box::new(E::Lit(V::Int(i64::MAX)))),
+                        E::Lit(V::Int(1)),
+                    )
+                } else if *i < 0 {
+                    E::Neg(1, Box::new(E::Lit(V::Int(-*i))))
+                } else {
+                    E::Lit(V::Int(*i))
+                }
+            }
+            V::F(f) => {
+                if f.is_nan() {
+                    bin(Op::Div, E::Lit(V::F(0.0)), E::Lit(V::F(0.0)))
+                } else if *f == f64::INFINITY {
+                    bin(Op::Div, E::Lit(V::F(1.0)), E::Lit(V::F(0.0)))
+                } else if *f == f64::NEG_INFINITY {
+                    bin(
+                        Op::Div,
+                        E::Neg(1, Box::new(E::Lit(V::F(1.0)))),
+                        E::Lit(V::F(0.0)),
+                    )
+                } else if f.is_sign_negative() {
+                    E::Neg(1, Box::new(E::Lit(V::F(-*f))))
+                } else {
+                    E::Lit(V::F(*f))
+                }
+            }
+            V::UInt(_) | V::Bool(_) | V::Str(_) | V::Bytes(_) | V::Null => E::Lit(v.clone()),
+            V::List(l) => E::List(l.iter().map(E::from_value).collect()),
+            V::Map(m) => E::Map(
+                m.iter()
+                    .map(|(k, x)| (E::Lit(V::Str(k.clone())), E::from_value(x)))
+                    .collect(),
+            ),
+            V::Type(t) => match t.as_str() {
+                "null" => var("null_type"),
+                "list" => call("type", vec![E::List(vec![])]),
+                "map" => call("type", vec![E::Map(vec![])]),
+                other => var(other),
+            },
+            V::Ts(s, n) => {
+                let base = call("timestamp", vec![E::from_value(&V::Int(*s))]);
+                if *n == 0 {
+                    base
+                } else {
+                    bin(
+                        Op::Add,
+                        base,
+                        call("duration", vec![ilit(0), ilit(*n as i64)]),
+                    )
+                }
+            }
+            V::Dur(n) => {
+                let secs = n.div_euclid(1_000_000_000) as i64;
+                let nanos = n.rem_euclid(1_000_000_000) as i64;
+                if nanos == 0 {
+                    call("duration", vec![E::from_value(&V::Int(secs))])
+                } else {
+                    call("duration", vec![E::from_value(&V::Int(secs)), ilit(nanos)])
+                }
+            }
+        }
+    }
+
+    pub fn prec(&self) -> u8 {
+        match self {
+            E::Tern(..) | E::Match(..) => 0,
+            E::Bin(op, ..) => op.prec(),
+            E::Not(..) | E::Neg(..) => 6,
+            _ => 7,
+        }
+    }
+
+    pub fn size(&self) -> usize {
+        let mut n = 0;
+        self.walk(&mut |_| n += 1);
+        n
+    }
+
+    pub fn depth(&self) -> usize {
+        let mut d = 0;
+        for c in self.children() {
+            d = d.max(c.depth());
+        }
+        d + 1
+    }
+
+    pub fn children(&self) -> Vec<&E> {
+        match self {
+            E::Lit(_) | E::Var(_) => vec![],
+            E::Not(_, e) | E::Neg(_, e) => vec![e],
+            E::Bin(_, a, b) => vec![a, b],
+            E::Tern(a, b, c) => vec![a, b, c],
+            E::List(l) => l.iter().collect(),
+            E::Map(m) => m.iter().flat_map(|(k, v)| [k, v]).collect(),
+            E::Index(a, b) => vec![a, b],
+            E::Field(a, _) => vec![a],
+            E::Call(f, args) => {
+                let mut v: Vec<&E> = vec![f];
+                v.extend(args.iter());
+                v
+            }
+            E::FStr(segs) => segs
+                .iter()
+                .filter_map(|s| match s {
+                    FSeg::Expr(e) => Some(e),
+                    _ => None,
+                })
+                .collect(),
+            E::Match(s, cases) => {
+                let mut v: Vec<&E> = vec![s];
+                for (p, e) in cases {
+                    if let Pat::Cmp(_, pe) = p {
+                        v.push(pe);
+                    }
+                    v.push(e);
+                }
+                v
+            }
+        }
+    }
+
+    pub fn walk(&self, f: &mut impl FnMut(&E)) {
+        f(self);
+        for c in self.children() {
+            c.walk(f);
+        }
+    }
+
+    /// constructs present, for class histograms
+    pub fn constructs(&self) -> BTreeSet<&'static str> {
+        let mut s = BTreeSet::new();
+        self.walk(&mut |e| {
+            s.insert(match e {
+                E::Lit(_) => "lit",
+                E::Var(_) => "var",
+                E::Not(..) => "not",
+                E::Neg(..) => "neg",
+                E::Bin(Op::Or, ..) => "or",
+                E::Bin(Op::And, ..) => "and",
+                E::Bin(Op::In, ..) => "in",
+                E::Bin(op, ..) if op.prec() == 3 => "rel",
+                E::Bin(..) => "arith",
+                E::Tern(..) => "ternary",
+                E::List(_) => "list",
+                E::Map(_) => "map",
+                E::Index(..) => "index",
+                E::Field(..) => "field",
+                E::Call(..) => "call",
+                E::FStr(_) => "fstring",
+                E::Match(..) => "match",
+            });
+        });
+        s
+    }
+}
+
+// ---------------------------------------------------------------------------
+// Rendering
+
+#[derive(Clone, Copy, Debug, PartialEq, Eq)]
+pub enum Parens {
+    Minimal,
+    Full,
+    Random,
+}
+
+#[derive(Clone, Copy, Debug, PartialEq, Eq)]
+pub enum Space {
+    Tight,
+    Single,
+    Random,
+}
+
+pub fn atom_text(v: &V) -> String {
+    match v {
+        V::Int(i) => format!("{}", i),
+        V::UInt(u) => format!("{}u", u),
+        V::F(f) => {
+            let s = format!("{:?}", f);
+            if s.contains('.') || s.contains('e') || s.contains("inf") || s.contains("NaN") {
+                s
+            } else {
+                format!("{}.0", s)
+            }
+        }
+        V::Bool(b) => format!("{}", b),
+        V::Str(s) => str_lit(s),
+        V::Bytes(b) => bytes_lit(b),
+        V::Null => "null".to_string(),
+        other => other.lit().unwrap_or_else(|| "null".to_string()),
+    }
+}
+
+pub struct Renderer<'a, 'g> {
+    pub parens: Parens,
+    pub g: Option<&'a mut G<'g>>,
+    pub toks: Vec<String>,
+}
+
+impl<'a, 'g> Renderer<'a, 'g> {
+    fn extra(&mut self) -> bool {
+        match self.parens {
+            Parens::Minimal => false,
+            Parens::Full => true,
+            Parens::Random => self.g.as_mut().map(|g| g.chance(64)).unwrap_or(false),
+        }
+    }
+
+    fn t(&mut self, s: &str) {
+        self.toks.push(s.to_string());
+    }
+
+    /// render `e` where the grammar requires at least precedence `min`
+    pub fn expr(&mut self, e: &E, min: u8) {
+        let compound = !matches!(e, E::Lit(_) | E::Var(_));
+        let need = e.prec() < min;
+        let wrap = need || (compound && self.extra()) || (!compound && self.parens == Parens::Random && self.extra() && self.extra());
+        if wrap {
+            self.t("(");
+            self.inner(e);
+            self.t(")");
+        } else {
+            self.inner(e);
+        }
+    }
+
+    fn list(&mut self, items: &[E]) {
+        for (i, x) in items.iter().enumerate() {
+            if i > 0 {
+                self.t(",");
+            }
+            self.expr(x, 0);
+        }
+    }
+
+    fn inner(&mut self, e: &E) {
+        match e {
+            E::Lit(v) => {
+                let s = atom_text(v);
+                self.t(&s);
+            }
+            E::Var(n) => self.t(n),
+            E::Not(n, x) => {
+                for _ in 0..*n {
+                    self.t("!");
+                }
+                self.expr(x, 7);
+            }
+            E::Neg(n, x) => {
+                for _ in 0..*n {
+                    self.t("-");
+                }
+                self.expr(x, 7);
+            }
+            E::Bin(op, a, b) => {
+                let p = op.prec();
+                self.expr(a, p);
+                self.t(op.sym());
+                self.expr(b, p + 1);
+            }
+            E::Tern(c, a, b) => {
+                self.expr(c, 1);
+                self.t("?");
+                self.expr(a, 1);
+                self.t(":");
+                self.expr(b, 0);
+            }
+            E::List(l) => {
+                self.t("[");
+                self.list(l);
+                self.t("]");
+            }
+            E::Map(m) => {
+                self.t("{");
+                for (i, (k, v)) in m.iter().enumerate() {
+                    if i > 0 {
+                        self.t(",");
+                    }
+                    self.expr(k, 0);
+                    self.t(":");
+                    self.expr(v, 0);
+                }
+                self.t("}");
+            }
+            E::Index(a, i) => {
+                self.postfix_base(a);
+                self.t("[");
+                self.expr(i, 0);
+                self.t("]");
+            }
+            E::Field(a, f) => {
+                self.postfix_base(a);
+                self.t(".");
+                self.t(f);
+            }
+            E::Call(f, args) => {
+                self.postfix_base(f);
+                self.t("(");
+                self.list(args);
+                self.t(")");
+            }
+            E::FStr(segs) => {
+                let mut s = String::from("f\"");
+                for seg in segs {
+                    match seg {
+                        FSeg::Lit(l) => {
+                            let q = str_lit(l);
+                            let body = &q[1..q.len() - 1];
+                            s.push_str(&body.replace('{', "{{").replace('}', "}}"));
+                        }
+                        FSeg::Expr(x) => {
+                            s.push('{');
+                            s.push_str(&render_min(x));
+                            s.push('}');
+                        }
+                    }
+                }
+                s.push('"');
+                self.t(&s);
+            }
+            E::Match(s, cases) => {
+                self.t("match");
+                self.expr(s, 0);
+                self.t("{");
+                for (i, (p, x)) in cases.iter().enumerate() {
+                    if i > 0 {
+                        self.t(",");
+                    }
+                    self.t("case");
+                    match p {
+                        Pat::Any => self.t("_"),
+                        Pat::Type(t) => self.t(t),
+                        Pat::Cmp(op, pe) => {
+                            if let Some(op) = op {
+                                self.t(op.sym());
+                            }
+                            self.expr(pe, 1);
+                        }
+                    }
+                    self.t(":");
+                    self.expr(x, 0);
+                }
+                self.t("}");
+            }
+        }
+    }
+
+    /// receiver of a postfix operator: numeric literals are always parenthesised so that
+    /// `1.f` / `1.0[0]` cannot merge into a different token
+    fn postfix_base(&mut self, a: &E) {
+        let numeric = matches!(a, E::Lit(V::Int(_)) | E::Lit(V::UInt(_)) | E::Lit(V::F(_)));
+        if numeric {
+            self.t("(");
+            self.inner(a);
+            self.t(")");
+        } else {
+            self.expr(a, 7);
+        }
+    }
+}
+
+fn wordy(c: char) -> bool {
+    c.is_ascii_alphanumeric() || c == '_'
+}
+
+/// two adjacent tokens would merge into a different token sequence without a separator
+pub fn needs_sep(a: &str, b: &str) -> bool {
+    let (Some(l), Some(r)) = (a.chars().last(), b.chars().next()) else {
+        return false;
+    };
+    if wordy(l) && wordy(r) {
+        return true;
+    }
+    // `x` then a quoted literal could read as a b'..' / r'..' / f'..' prefix
+    if wordy(l) && (r == '"' || r == '\'') {
+        return true;
+    }
+    // `1` `.5`, `a` `.5`
+    if (wordy(l) || l == '.') && r == '.' && b.chars().nth(1).map_or(false, |c| c.is_ascii_digit()) {
+        return true;
+    }
+    if l == '.' && r.is_ascii_digit() {
+        return true;
+    }
+    // operator characters that would fuse: `<` `=`, `!` `=`, `=`/`&`/`|` pairs
+    matches!((l, r), ('<', '=') | ('>', '=') | ('!', '=') | ('=', '=') | ('&', '&') | ('|', '|'))
+}
+
+pub fn join_tokens(toks: &[String], space: Space, mut g: Option<&mut G>) -> String {
+    const WS: &[&str] = &["", " ", "  ", "\t", "\n", " \n ", "\n\n", "\t "];
+    let mut out = String::new();
+    if space == Space::Random {
+        if let Some(g) = g.as_mut() {
+            out.push_str(g.pick_str(WS));
+        }
+    }
+    for (i, t) in toks.iter().enumerate() {
+        if i > 0 {
+            let need = needs_sep(&toks[i - 1], t);
+            let ws: &str = match space {
+                Space::Tight => {
+                    if need {
+                        " "
+                    } else {
+                        ""
+                    }
+                }
+                Space::Single => {
+                    let p = toks[i - 1].as_str();
+                    if need {
+                        " "
+                    } else if t == "," || t == ")" || t == "]" || t == "." || p == "(" || p == "[" || p == "." || p == "!" || t == "(" || t == "[" {
+                        ""
+                    } else {
+                        " "
+                    }
+                }
+                Space::Random => {
+                    let w = g.as_mut().map(|g| g.pick_str(WS)).unwrap_or(" ");
+                    if need && w.is_empty() {
+                        " "
+                    } else {
+                        w
+                    }
+                }
+            };
+            out.push_str(ws);
+        }
+        out.push_str(t);
+    }
+    if space == Space::Random {
+        if let Some(g) = g.as_mut() {
+            out.push_str(g.pick_str(WS));
+        }
+    }
+    out
+}
+
+pub fn tokens_of(e: &E, parens: Parens, g: Option<&mut G>) -> Vec<String> {
+    let mut r = Renderer {
+        parens,
+        g,
+        toks: Vec::new(),
+    };
+    r.expr(e, 0);
+    r.toks
+}
+
+pub fn render_min(e: &E) -> String {
+    join_tokens(&tokens_of(e, Parens::Minimal, None), Space::Single, None)
+}
+
+pub fn render(e: &E, parens: Parens, space: Space, g: &mut G) -> String {
+    let toks = tokens_of(e, parens, Some(g));
+    join_tokens(&toks, space, Some(g))
+}
+
+// ---------------------------------------------------------------------------
+// Shape: the span-free vocabulary both the expected tree and rscel's AST are mapped to
+
+#[derive(Clone, Debug, PartialEq)]
+pub enum SPat {
+    Any,
+    Type(String),
+    Cmp(String, Shape),
+}
+
+#[derive(Clone, Debug, PartialEq)]
+pub enum SSeg {
+    Lit(String),
+    Expr(String),
+}
+
+#[derive(Clone, Debug, PartialEq)]
+pub enum Shape {
+    Tern(Box<Shape>, Box<Shape>, Box<Shape>),
+    Match(Box<Shape>, Vec<(SPat, Shape)>),
+    Bin(String, Box<Shape>, Box<Shape>),
+    Not(usize, Box<Shape>),
+    Neg(usize, Box<Shape>),
+    Ident(String),
+    /// canonical text of the literal value
+    Lit(String),
+    List(Vec<Shape>),
+    Map(Vec<(Shape, Shape)>),
+    Field(Box<Shape>, String),
+    Index(Box<Shape>, Box<Shape>),
+    Call(Box<Shape>, Vec<Shape>),
+    FStr(Vec<SSeg>),
+}
+
+impl Shape {
+    pub fn show(&self) -> String {
+        match self {
+            Shape::Tern(c, a, b) => format!("(?: {} {} {})", c.show(), a.show(), b.show()),
+            Shape::Match(s, cases) => {
+                let cs: Vec<String> = cases
+                    .iter()
+                    .map(|(p, e)| {
+                        let ps = match p {
+                            SPat::Any => "_".to_string(),
+                            SPat::Type(t) => format!("type:{}", t),
+                            SPat::Cmp(op, x) => format!("{} {}", op, x.show()),
+                        };
+                        format!("[{} => {}]", ps, e.show())
+                    })
+                    .collect();
+                format!("(match {} {})", s.show(), cs.join(" "))
+            }
+            Shape::Bin(op, a, b) => format!("({} {} {})", op, a.show(), b.show()),
+            Shape::Not(n, x) => format!("(not*{} {})", n, x.show()),
+            Shape::Neg(n, x) => format!("(neg*{} {})", n, x.show()),
+            Shape::Ident(n) => n.clone(),
+            Shape::Lit(s) => s.clone(),
+            Shape::List(l) => format!("[{}]", l.iter().map(|x| x.show()).collect::<Vec<_>>().join(" ")),
+            Shape::Map(m) => format!(
+                "{{{}}}",
+                m.iter()
+                    .map(|(k, v)| format!("{}: {}", k.show(), v.show()))
+                    .collect::<Vec<_>>()
+                    .join(", ")
+            ),
+            Shape::Field(a, f) => format!("(. {} {})", a.show(), f),
+            Shape::Index(a, i) => format!("(idx {} {})", a.show(), i.show()),
+            Shape::Call(f, args) => format!(
+                "(call {} {})",
+                f.show(),
+                args.iter().map(|x| x.show()).collect::<Vec<_>>().join(" ")
+            ),
+            Shape::FStr(segs) => format!("(fstr {:?})", segs),
+        }
+    }
+}
+
+pub fn to_shape(e: &E) -> Shape {
+    match e {
+        E::Lit(v) => Shape::Lit(v.canon()),
+        E::Var(n) => Shape::Ident(n.clone()),
+        E::Not(n, x) => Shape::Not(*n as usize, Box::new(to_shape(x))),
+        E::Neg(n, x) => Shape::Neg(*n as usize, Box::new(to_shape(x))),
+        E::Bin(op, a, b) => Shape::Bin(op.sym().to_string(), Box::new(to_shape(a)), Box::new(to_shape(b))),
+        E::Tern(c, a, b) => Shape::Tern(Box::new(to_shape(c)), Box::new(to_shape(a)), Box::new(to_shape(b))),
+        E::List(l) => Shape::List(l.iter().map(to_shape).collect()),
+        E::Map(m) => Shape::Map(m.iter().map(|(k, v)| (to_shape(k), to_shape(v))).collect()),
+        E::Index(a, i) => Shape::Index(Box::new(to_shape(a)), Box::new(to_shape(i))),
+        E::Field(a, f) => Shape::Field(Box::new(to_shape(a)), f.clone()),
+        E::Call(f, args) => Shape::Call(Box::new(to_shape(f)), args.iter().map(to_shape).collect()),
+        E::FStr(segs) => Shape::FStr(
+            segs.iter()
+                .map(|s| match s {
+                    FSeg::Lit(l) => SSeg::Lit(l.clone()),
+                    FSeg::Expr(x) => SSeg::Expr(render_min(x)),
+                })
+                .collect(),
+        ),
+        E::Match(s, cases) => Shape::Match(
+            Box::new(to_shape(s)),
+            cases
+                .iter()
+                .map(|(p, x)| {
+                    let sp = match p {
+                        Pat::Any => SPat::Any,
+                        Pat::Type(t) => SPat::Type(t.clone()),
+                        Pat::Cmp(op, pe) => SPat::Cmp(op.map(|o| o.sym()).unwrap_or("==").to_string(), to_shape(pe)),
+                    };
+                    (sp, to_shape(x))
+                })
+                .collect(),
+        ),
+    }
+}
+
+// ---------------------------------------------------------------------------
+// Free identifiers
+
+pub const MACROS_WITH_VAR: &[(&str, usize)] = &[
+    ("all", 1),
+    ("exists", 1),
+    ("exists_one", 1),
+    ("filter", 1),
+    ("map", 1),
+    ("reduce", 2),
+];
+
+/// Identifiers the expression may read as variables: every `Var` occurrence that is not a
+/// macro's loop-variable declaration and is not bound by an enclosing macro body, excluding
+/// callee names in call position (`f(..)`) and member names.
+pub fn free_vars(e: &E) -> BTreeSet<String> {
+    let mut out = BTreeSet::new();
+    fv(e, &mut Vec::new(), &mut out);
+    out
+}
+
+fn fv(e: &E, bound: &mut Vec<String>, out: &mut BTreeSet<String>) {
+    match e {
+        E::Var(n) => {
+            if !bound.contains(n) {
+                out.insert(n.clone());
+            }
+        }
+        E::Call(f, args) => {
+            // macro method call with loop variables?
+            if let E::Field(recv, name) = f.as_ref() {
+                if let Some((_, nvars)) = MACROS_WITH_VAR.iter().find(|(m, _)| m == name) {
+                    fv(recv, bound, out);
+                    let mut names = Vec::new();
+                    for a in args.iter().take(*nvars) {
+                        if let E::Var(v) = a {
+                            names.push(v.clone());
+                        }
+                    }
+                    if names.len() == *nvars && args.len() > *nvars {
+                        if name == "reduce" {
+                            // reduce(acc, x, step, seed): seed is evaluated outside the loop scope
+                            let n0 = bound.len();
+                            bound.extend(names);
+                            if let Some(step) = args.get(2) {
+                                fv(step, bound, out);
+                            }
+                            bound.truncate(n0);
+                            for a in args.iter().skip(3) {
+                                fv(a, bound, out);
+                            }
+                        } else {
+                            let n0 = bound.len();
+                            bound.extend(names);
+                            for a in args.iter().skip(*nvars) {
+                                fv(a, bound, out);
+                            }
+                            bound.truncate(n0);
+                        }
+                        return;
+                    }
+                }
+                fv(recv, bound, out);
+            } else if let E::Var(_) = f.as_ref() {
+                // free call: the callee name is a function/macro/type, not a variable
+            } else {
+                fv(f, bound, out);
+            }
+            for a in args {
+                fv(a, bound, out);
+            }
+        }
+        other => {
+            for c in other.children() {
+                fv(c, bound, out);
+            }
+        }
+    }
+}
